@@ -90,3 +90,54 @@ func c01Padded(r *drv.Run) {
 		}}
 	})
 }
+
+// c01TwoDigitRefs: regex literals with ten to twelve plain groups and a back-reference to each group number from 9
+// to 12 - the two-digit numbers 10, 11, 12 among them, one ending in the digit 0 - on a text where "group 10" and
+// "group 1 followed by the character 0" are different things. Expected spans from the text alone.
+func c01TwoDigitRefs(r *drv.Run) {
+	type job struct {
+		groups, ref int
+	}
+	var jobs []job
+	for g := 10; g <= 12; g++ {
+		for ref := 9; ref <= g; ref++ {
+			jobs = append(jobs, job{g, ref})
+		}
+	}
+	r.Exec(len(jobs), drv.ExecOpts{Batch: 10}, func(i int) *drv.Item {
+		jb := jobs[i]
+		letters := "abcdefghijkl"[:jb.groups]
+		re := ""
+		for _, c := range letters {
+			re += "(" + string(c) + ")"
+		}
+		re += fmt.Sprintf("\\%d", jb.ref)
+		src := "find all @/" + re + "/"
+		// the letters followed by: the referenced group's letter (a match), group 1's letter and the last digit of the
+		// number (what `\1` + a literal digit would match), the referenced letter in the other case (none)
+		refLetter := string(letters[jb.ref-1])
+		text := []byte(letters + refLetter + " " + letters + "a" + fmt.Sprint(jb.ref%10) + " " + letters + strings.ToUpper(refLetter) + " " + letters + refLetter)
+		c := wire.Case{Op: "run", Src: []byte(src), Texts: [][]byte{text}, StepBudget: 400000}
+		return &drv.Item{Case: c, Check: func(res *wire.Result) {
+			if crashOrGuard(r, res, &c, src, false) {
+				return
+			}
+			if compileTrouble(r, res, &c, src, false) {
+				return
+			}
+			r.Eval(1)
+			if len(res.Runs) != 1 || runTrouble(r, &res.Runs[0], &c, src, text, false) {
+				return
+			}
+			n := jb.groups + 1
+			last := len(text) - n
+			want := fmt.Sprintf("{#1[0,%d) #2[%d,%d) }", n, last, last+n)
+			if got := fmtGotN(res.Runs[0].Matches); got != want {
+				r.Violate(&drv.Violation{Sig: "two-digit-back-reference:spans-differ", Src: src, Text: string(text), Case: &c,
+					Detail: map[string]any{"groups": jb.groups, "referenced_group": jb.ref, "expected": want, "observed": got}})
+				return
+			}
+			r.Count("regexes_with_ten_or_more_groups_and_a_back_reference", 1)
+		}}
+	})
+}
